@@ -4,7 +4,7 @@
    gradient half is a labelled test of the correspondence driver. *)
 From Coq Require Import Arith List Permutation Reals QArith Qcanon.
 From GPV Require Import Base.LinAlg Base.Exec Base.Expr Models.C01_posterior Models.C02_mll Proofs.C02_mll.
-From GPV Require Import Models.C02_priors Proofs.C02_priors Proofs.C02_added.
+From GPV Require Import Models.C02_priors Proofs.C02_priors Proofs.C02_added Proofs.C02_container.
 From GPV Require Import Base.Det Proofs.C02_det Proofs.C02_route.
 Import ListNotations.
 
@@ -295,3 +295,29 @@ Example ex_c02_added_terms_shared_module :
   named_added (MNode 0 [(0, 5)] [MNode 1 [] [MNode 2 [(0, 7)] []]; MNode 2 [(0, 7)] []])%nat = [(0, 0, 5); (2, 0, 7)]%nat.
 Proof. exact ex_named_added_shared. Qed.
 Print Assumptions ex_c02_added_terms_shared_module.
+
+(* ---- plain torch containers (nn.ModuleList / nn.ModuleDict / nn.Sequential: tree nodes that are not gpytorch Modules and
+   carry no registrations) are TRANSPARENT for named_added_loss_terms: for every module, every position of the container among
+   its children and every content of the container (hence, by repeated use, every depth of nesting), the terms yielded -- and
+   their order -- are those of the tree in which the container's children are attached to its parent directly.  So the SGPR
+   term of an InducingPointKernel that is a summand of an AdditiveKernel (kept in a ModuleList) enters the objective *)
+Theorem c02_added_terms_container_transparent :
+  forall i ps pre c ch post,
+    named_added (MNode i ps (pre ++ MNode c [] ch :: post)) = named_added (MNode i ps (pre ++ ch ++ post)).
+Proof. exact named_added_container_transparent. Qed.
+Print Assumptions c02_added_terms_container_transparent.
+
+(* ... also with an arbitrary incoming memo, and when the root itself is a container *)
+Theorem c02_added_terms_container_is_its_children :
+  forall c ch memo, collect_by_prior (MNode c [] ch) memo = collect_list collect_by_prior ch memo.
+Proof. exact container_is_its_children. Qed.
+Print Assumptions c02_added_terms_container_is_its_children.
+
+(* the traversal that returns at a node that is not a gpytorch Module loses the terms registered below a container, although
+   the root is a gpytorch Module (witness: model -> sum kernel -> ModuleList -> [component; component with a term]) *)
+Theorem c02_added_terms_stop_at_container_refuted :
+  exists (plain : nat -> bool) (t : mtree),
+    (forall id ps ch, In (MNode id ps ch) [t] -> plain id = false) /\
+    fst (collect_stop_at_plain plain t []) <> named_added t.
+Proof. exact stop_at_plain_refuted. Qed.
+Print Assumptions c02_added_terms_stop_at_container_refuted.
